@@ -33,7 +33,7 @@ func mkFifoMutex(counts []int) *mc.Exec {
 					grants = append(grants, lockCall{mc.ThreadID(), k})
 					occ++
 					if occ > 1 {
-						mc.Fail("mutual exclusion: %d holders of one fifo.Mutex", occ)
+						mc.Fail("mutual exclusion: two holders of one fifo.Mutex\n%d holders", occ)
 					}
 					mc.Yield()
 					occ--
@@ -44,7 +44,7 @@ func mkFifoMutex(counts []int) *mc.Exec {
 	}
 	check := func(e *mc.End) error {
 		if u := unfinished(e); len(u) > 0 {
-			return fmt.Errorf("deadlock: correctly paired callers never returned: %v", u)
+			return fmt.Errorf("deadlock: correctly paired callers never returned\nunfinished=%v", u)
 		}
 		arr := lockArrivals(e.Trace, func(obj int) bool { return obj == lockID })
 		if err := checkFIFO(arr, grants); err != nil {
@@ -122,7 +122,7 @@ func mkFifoMap(threads [][]string) *mc.Exec {
 		sort.Strings(keys)
 		for _, k := range keys {
 			if interest[k] == 0 {
-				mc.Fail("leaked per-key state: entry for key %q still in the map %s although nobody holds or waits on it (entries=%v)", k, when, keys)
+				mc.Fail("leaked per-key state: an entry is still in the map although nobody holds or waits on its key\nkey %q, %s (entries=%v)", k, when, keys)
 			}
 		}
 	}
@@ -145,7 +145,7 @@ func mkFifoMap(threads [][]string) *mc.Exec {
 					grants = append(grants, lockCall{id, k})
 					occ[key]++
 					if occ[key] > 1 {
-						mc.Fail("mutual exclusion: %d holders of key %q", occ[key], key)
+						mc.Fail("mutual exclusion: two holders of one key\n%d holders of key %q", occ[key], key)
 					}
 					if op[0] == 'H' {
 						stalled[key] = true
@@ -172,7 +172,7 @@ func mkFifoMap(threads [][]string) *mc.Exec {
 			if k != "" && stalled[k] {
 				continue // holds k forever (H) or legitimately waits for it
 			}
-			return fmt.Errorf("deadlock: %s never returned from its operation on key %q (blocked on %s) although no holder of that key is stalled; stalled keys=%v parked=%v", t.Name, k, t.WaitOn, stalled, e.Parked())
+			return fmt.Errorf("deadlock: a caller never returned although no holder of its key is stalled\n%s in its operation on key %q (blocked on %s); stalled keys=%v parked=%v", t.Name, k, t.WaitOn, stalled, e.Parked())
 		}
 		leak("at final quiescence")
 		arr := lockArrivals(e.Trace, func(obj int) bool { return obj != mapLockID && obj != neverID && obj != 0 })
